@@ -572,7 +572,19 @@ def tame_for_dateutil(d):
 
 # ------------------------------------------------------------------ cache histories
 
-ID_POOL = ['X/A', 'X/B', '/X/A', 'X/A/', '/X/B/', 'Europe/Berlin', '/Europe/Berlin', 'W. Europe Standard Time', 'Custom Zone']
+ID_POOL = ['X/A', 'X/B', '/X/A', 'X/A/', '/X/B/', 'Europe/Berlin', '/Europe/Berlin', 'W. Europe Standard Time', 'Custom Zone',
+           # globally unique ids in the style of Mozilla / freeassociation / citadel: custom ids that END in a database name
+           '/example.org/20210101_1/Europe/Berlin', '/freeassociation.sourceforge.net/Tzfile/America/New_York']
+
+
+def independently_known(s, prov):
+    """does the tz database of the provider (or the Windows name table) hold this id? Asked of the database, not of the code
+    under test: which ids count as the provider's own is part of what the property is about"""
+    import zoneinfo
+    import pytz
+    from icalendar.timezone.windows_to_olson import WINDOWS_TO_OLSON
+    names = set(pytz.all_timezones) if prov == 'pytz' else zoneinfo.available_timezones()
+    return s in names or s in WINDOWS_TO_OLSON
 
 
 def histories(ctx, n):
@@ -773,7 +785,7 @@ def check_definition(ctx, d):
 def check_history(ctx, hist, prov):
     from icalendar.timezone import tzp
     ids, flags = id_table(hist, prov)
-    provided = {i for i, f in zip(ids, flags) if f[1] == '1' or f[0] == '1'}
+    provided = {i for i in ids if independently_known(i, prov) or independently_known(strip_slash(i), prov)}
     got = run_history(hist, prov)
     ctx.evaluated(('hist', prov, repr(hist)))
     seen_defs = {}          # clean id -> k of the first definition in the process
